@@ -71,6 +71,10 @@ def model_rdm(case):
     if m['kind'] == 'fixed':
         return ModelFixed('sim_model', np.array(d0)), None, np.array(d0)
     d1 = sq_dists(m['points2'], m['scale'])
+    if m['kind'] == 'fixed_multi':
+        from rsatoolbox.rdm import RDMs
+        mod = ModelFixed('sim_mean_of_two', RDMs(np.array([d0, d1], dtype=float)))
+        return mod, None, np.array([(a + b) / 2.0 for a, b in zip(d0, d1)])
     theta = np.array(m['theta'], dtype=float)
     mod = ModelWeighted('sim_weighted', np.array([d0, d1]))
     pred = np.array([theta[0] * a + theta[1] * b for a, b in zip(d0, d1)])
@@ -375,11 +379,18 @@ def model_spec(draw, n_cond):
     variant, pts = draw(point_cloud(n_cond))
     scale = draw(st.sampled_from([1.0, 1.0, 0.01, 100.0]))
     spec = dict(kind='fixed', variant=variant, points=pts, scale=scale)
-    if draw(st.integers(0, 3)) == 0:
+    k = draw(st.integers(0, 5))
+    if k == 0:
         _, pts2 = draw(point_cloud(n_cond))
         spec.update(kind='weighted', points2=pts2,
                     theta=[draw(st.sampled_from([0.0, 0.5, 1.0, 3.0])),
                            draw(st.sampled_from([0.25, 1.0, 2.0]))])
+    elif k == 1:
+        # a fixed model built from an RDMs object holding several RDMs (e.g. the subject RDMs
+        # calc_rdm returned): its prediction - model.predict() - is their mean, itself a
+        # squared-Euclidean RDM (of the concatenated configurations)
+        _, pts2 = draw(point_cloud(n_cond))
+        spec.update(kind='fixed_multi', points2=pts2)
     return spec
 
 
